@@ -189,12 +189,14 @@ def check_pair(P, inp, files, tier, scratch):
         return 'fail', 'entries: procedure entries shown by the trace %r, call sequence of the source %r' % (entries[:12], expected_entries[:12]), I, {}
     if hs.returncode != (I.exit & 0xFF):
         return 'fail', 'trace: hexsim -t exited with %d, program exit value %d' % (hs.returncode, I.exit), I, {}
-    return 'ok', '', I, dict(symbols=len(table), callees=len(called), steps=len(steps), call_order_open=I.call_order_open)
+    max_off = max([a - sym_for(table, a)[1] for a, _, _ in steps if sym_for(table, a)] + [0])
+    return 'ok', '', I, dict(symbols=len(table), callees=len(called), steps=len(steps), call_order_open=I.call_order_open, max_offset=max_off)
 
 
 def gen_case(rng, stats, extra):
     tier = extra['tier']
-    P, inp, files = xgen.gen_program(rng, tier)
+    mode = 'bulk' if rng.random() >= 0.92 else 'normal'      # "any code sizes": now and then a procedure of several kilobytes
+    P, inp, files = xgen.gen_program(rng, tier, mode)
     with driver.Scratch('c15') as scratch:
         verdict, why, I, info = check_pair(P, inp, files, tier, scratch)
     if verdict == 'undefined':
@@ -202,7 +204,9 @@ def gen_case(rng, stats, extra):
         return
     src = xlang.p_prog(P)
     nt = verdict == 'ok' and info.get('symbols', 0) >= 3 and info.get('callees', 0) >= 2
-    classes = ['verdict:' + verdict, 'symbols:%s' % min(info.get('symbols', 0), 9), 'callees:%s' % min(info.get('callees', 0), 6)]
+    classes = ['verdict:' + verdict, 'symbols:%s' % min(info.get('symbols', 0), 9), 'callees:%s' % min(info.get('callees', 0), 6), 'mode:' + mode]
+    if info.get('max_offset', 0) >= 1000:
+        classes.append('offset>=1000')
     if I and 'recursion' in I.feat:
         classes.append('recursion')
     if info.get('call_order_open'):
